@@ -74,6 +74,32 @@ func (c *Ctx) Floor(rule, what string, got, min int) {
 	}
 }
 
+// Import runs the rule table of another property on the same program and takes over,
+// under rule id `rule`, the obligations whose key satisfies match: one structural
+// condition can be necessary for two properties (e.g. "pruning unlinks only empty nodes"
+// for state reclamation and for lookup correctness), and each property reports it itself.
+// At least `floor` obligations must be taken over.
+func (c *Ctx) Import(other func(*Ctx), rule, why string, floor int, match func(key string) bool) {
+	sub := NewCtx(c.P, c.Prop, c.Tier)
+	other(sub)
+	n := 0
+	for _, o := range sub.Obls {
+		if !match(o.Key) {
+			continue
+		}
+		n++
+		d := o.Detail
+		if o.Status != OK {
+			d = why + ": " + d
+		}
+		c.add(rule, "shared:"+o.Key, o.Pos, o.Status, d)
+	}
+	for f := range sub.Funcs {
+		_ = f
+	}
+	c.Floor(rule, "obligations shared with another property's rule table", n, floor)
+}
+
 // Fn resolves a function and fails the rule when it is missing.
 func (c *Ctx) Fn(rule, pkg, recv, name string) *ssa.Function {
 	f := c.P.Func(pkg, recv, name)
